@@ -93,6 +93,13 @@ fn classify_cli(stderr: &str, signal: Option<i32>) -> String {
     "fail:other".into()
 }
 
+pub fn gen_cfg_pub(rng: &mut Rng, hard: bool) -> Cfg {
+    gen_cfg(rng, hard)
+}
+pub fn cfg_sexp_pub(c: &Cfg) -> String {
+    cfg_sexp(c)
+}
+
 pub fn cmd_emit(args: &[String]) {
     let seed: u64 = arg_val(args, "--seed").and_then(|s| s.parse().ok()).unwrap_or(1);
     let n: usize = arg_val(args, "--n").and_then(|s| s.parse().ok()).unwrap_or(50);
